@@ -641,11 +641,14 @@ pub struct Model {
     /// `Some(a)`: the handle was born from static arena text `a` and has only been cloned,
     /// popped, truncated or cleared since (C10's pointer clause applies)
     pub static_of: Option<usize>,
+    /// ... and that text was longer than the inline limit when the handle was born, so the handle
+    /// must keep pointing at the caller's bytes however short it has become since
+    pub static_long: bool,
 }
 
 impl Model {
     pub fn new(text: String) -> Self {
-        Model { text, static_of: None }
+        Model { text, static_of: None, static_long: false }
     }
 }
 
@@ -707,7 +710,8 @@ pub fn apply_model(models: &mut [Option<Model>], st: &Step) -> Outcome {
         Op::FromChar(c) => set!(c.to_string()),
         Op::FromStatic { arena: a, len } => {
             let t = arena.model_text(*a, *len);
-            models[i] = Some(Model { text: t, static_of: Some(*a % ARENA_TEXTS) });
+            let long = t.len() > super::genr::INLINE;
+            models[i] = Some(Model { text: t, static_of: Some(*a % ARENA_TEXTS), static_long: long });
             ok.clone()
         }
         Op::WithCapacity { .. } => set!(String::new()),
@@ -858,6 +862,7 @@ pub fn apply_model(models: &mut [Option<Model>], st: &Step) -> Outcome {
     if !keeps_static {
         if let Some(m) = models[i].as_mut() {
             m.static_of = None;
+            m.static_long = false;
         }
     }
     out
